@@ -20,8 +20,8 @@ type RecStorage struct {
 	Inner atree.SlabStorage
 	Effs  []Eff
 	// FailRetrieve makes Retrieve of the given slab fail (caller-supplied-component failure, C18).
-	FailRetrieve map[atree.SlabID]bool
-	Retrieves    int
+	FailRetrieve   map[atree.SlabID]bool
+	Retrieves      int
 	FailRetrieveAt int // 1-based position of the Retrieve call to fail (0 = none)
 }
 
@@ -55,9 +55,11 @@ func (r *RecStorage) Retrieve(id atree.SlabID) (atree.Slab, bool, error) {
 	}
 	return r.Inner.Retrieve(id)
 }
-func (r *RecStorage) RetrieveIfLoaded(id atree.SlabID) atree.Slab { return r.Inner.RetrieveIfLoaded(id) }
-func (r *RecStorage) Count() int                                   { return r.Inner.Count() }
-func (r *RecStorage) SlabIterator() (atree.SlabIterator, error)    { return r.Inner.SlabIterator() }
+func (r *RecStorage) RetrieveIfLoaded(id atree.SlabID) atree.Slab {
+	return r.Inner.RetrieveIfLoaded(id)
+}
+func (r *RecStorage) Count() int                                { return r.Inner.Count() }
+func (r *RecStorage) SlabIterator() (atree.SlabIterator, error) { return r.Inner.SlabIterator() }
 
 // NetEffect canonicalises an effect list: allocations in order, then for every touched ID its
 // last store/remove, sorted by ID.
